@@ -179,6 +179,7 @@ func (ms *readWriteSegment) Close() error {
 	defer ms.Unlock()
 
 	err := multierr.Combine(
+		ms.txnMappedFile.Flush(),
 		ms.txnMappedFile.Unmap(),
 		ms.txnFile.Close(),
 		// Write index file
